@@ -82,12 +82,13 @@ var featureNames = []string{"variables", "variable-default", "variable-in-direct
 	"deviation:N3-__typename-shares-response-name-with-String!-field"}
 
 type varDecl struct {
-	name   string
-	typ    *TypeRef
-	def    string
-	hasDef bool // a non-null default value
-	anyDef bool
-	dirs   string // rendered directives of the definition (same in every operation)
+	name    string
+	typ     *TypeRef
+	def     string
+	hasDef  bool // a non-null default value
+	anyDef  bool
+	hugeDef bool   // the default contains a custom-scalar literal beyond int64/float64
+	dirs    string // rendered directives of the definition (same in every operation)
 }
 
 type fragInfo struct {
@@ -1017,6 +1018,9 @@ func (g *docGen) useVar(lt *TypeRef, fl uint8) bool {
 	g.lit.b = append(g.lit.b, '$')
 	g.lit.b = append(g.lit.b, v.name...)
 	g.used |= 1 << uint(idx)
+	if v.hugeDef && g.lit.nest > 0 {
+		g.lit.hitNestedHuge = true // the library evaluates the default while checking the enclosing object
+	}
 	if oneOf {
 		g.feats |= ftOneOfVar
 	}
@@ -1072,7 +1076,16 @@ func (g *docGen) newVar(lt *TypeRef, locDef, oneOf bool) *varDecl {
 		if lt.NonNull && !vt.NonNull {
 			fl |= flNoNull
 		}
+		hit := g.lit.hitCustom
+		g.lit.hitCustom = false
+		savedNest := g.lit.nest
+		if g.noDev {
+			g.lit.nest++ // with noNestedHuge: no unconvertible literal in a default (deviation N2)
+		}
 		g.lit.value(vt, 1, fl)
+		g.lit.nest = savedNest
+		v.hugeDef = g.lit.hitCustom
+		g.lit.hitCustom = hit || v.hugeDef
 		v.def = string(g.lit.b)
 		g.lit.b, g.lit.varFn, g.lit.faultFn = saved, savedFn, savedFault
 		v.anyDef = true
